@@ -1,9 +1,106 @@
 import Driver.Util
+import Lattigo.Model.Shamir
 
+/-
+  C15 line protocol (all numbers decimal, `v` = vector `a,b,c`, `M` = matrix, rows joined by `;`).
+  A ring is `nq ms` (number of Q primes, all primes Q then P); a ringqp polynomial is the matrix of
+  its raw words, one row per prime.
+
+    genpoly <nq> <threshold> <secret:M> <k> <rand_1:M> … <rand_k:M>
+        → `err` | the t coefficient polynomials joined by `|`
+    share <nq> <ms:v> <x> <t> <c_0:M> … <c_{t-1}:M>
+        → GenShamirSecretShare at point x : `panic` | M
+    agg <nq> <ms:v> <nq1> <s1:M> <nq2> <s2:M> <nqo> <out:M>
+        → AggregateShares : `err` | M
+    aggall <nq> <ms:v> <N> <n> <s_1:M> … <s_n:M>
+        → shares aggregated one after the other into a zero polynomial : `err` | M
+    addshare <nq> <ms:v> <threshold> <own> <others:v> <ownPoint> <actives:v> <share:M>
+        → NewCombiner(own, others, threshold).GenAdditiveShare(actives, ownPoint, share) : `err` | `panic` | M
+    run <nq> <ms:v> <threshold> <N> <nd> <dealer_1> … <dealer_nd> <np> <party_1> … <party_np>
+        dealer = its Shamir polynomial, coefficient matrices joined by `|`
+        party  = `own:others:actives`
+        → thresholdRun (sum of the additive shares of the listed parties) : `err` | `panic` | M
+-/
 namespace Driver.C15
-open Driver
+open Driver Lattigo.Model.Shamir
 
-/-- stub: replaced by the property's real handler -/
-def handle (_toks : List String) : String := badOp
+def showOutcome : Outcome QP → String
+  | .ok a => showMat a.rows
+  | .err => "err"
+  | .panic => "panic"
+
+def parseMats? (toks : List String) : Option (List (List (List Nat))) := toks.mapM parseMat?
+
+def parseParty? (s : String) : Option Party :=
+  match s.splitOn ":" with
+  | [o, oth, act] => do some ⟨← o.toNat?, ← parseVec? oth, ← parseVec? act⟩
+  | _ => none
+
+def parseDealer? (nq : Nat) (s : String) : Option ShamirPoly := do
+  let ms ← (s.splitOn "|").mapM parseMat?
+  some (ms.map fun m => ⟨nq, m⟩)
+
+def zeroQP (r : RingQP) (n : Nat) : QP := ⟨r.nq, r.ms.map fun _ => List.replicate n 0⟩
+
+def handleOpt (toks : List String) : Option String :=
+  match toks with
+  | "genpoly" :: nq :: thr :: secret :: k :: rest => do
+      let nq ← nq.toNat?
+      let thr ← thr.toInt?
+      let secret ← parseMat? secret
+      let k ← k.toNat?
+      let rand ← parseMats? rest
+      if rand.length ≠ k then none
+      match genShamirPolynomial thr ⟨nq, secret⟩ (rand.map fun m => ⟨nq, m⟩) with
+      | .ok sp => some ("|".intercalate (sp.map fun c => showMat c.rows))
+      | .err => some "err"
+      | .panic => some "panic"
+  | "share" :: nq :: ms :: x :: t :: rest => do
+      let nq ← nq.toNat?
+      let ms ← parseVec? ms
+      let x ← x.toNat?
+      let t ← t.toNat?
+      let cs ← parseMats? rest
+      if cs.length ≠ t then none
+      some (showOutcome (genShamirSecretShare ⟨nq, ms⟩ x (cs.map fun m => ⟨nq, m⟩)))
+  | ["agg", nq, ms, nq1, s1, nq2, s2, nqo, out] => do
+      let r : RingQP := ⟨← nq.toNat?, ← parseVec? ms⟩
+      let a : QP := ⟨← nq1.toNat?, ← parseMat? s1⟩
+      let b : QP := ⟨← nq2.toNat?, ← parseMat? s2⟩
+      let o : QP := ⟨← nqo.toNat?, ← parseMat? out⟩
+      some (showOutcome (aggregateShares r a b o))
+  | "aggall" :: nq :: ms :: n :: cnt :: rest => do
+      let r : RingQP := ⟨← nq.toNat?, ← parseVec? ms⟩
+      let n ← n.toNat?
+      let cnt ← cnt.toNat?
+      let ss ← parseMats? rest
+      if ss.length ≠ cnt then none
+      some (showOutcome (aggregateAll r (zeroQP r n) (ss.map fun m => ⟨r.nq, m⟩)))
+  | ["addshare", nq, ms, thr, own, others, ownPoint, actives, share] => do
+      let r : RingQP := ⟨← nq.toNat?, ← parseVec? ms⟩
+      let thr ← thr.toInt?
+      let own ← own.toNat?
+      let others ← parseVec? others
+      let ownPoint ← ownPoint.toNat?
+      let actives ← parseVec? actives
+      let share ← parseMat? share
+      some (showOutcome (genAdditiveShare (newCombiner r own others thr) actives ownPoint ⟨r.nq, share⟩))
+  | "run" :: nq :: ms :: thr :: n :: nd :: rest => do
+      let r : RingQP := ⟨← nq.toNat?, ← parseVec? ms⟩
+      let thr ← thr.toInt?
+      let n ← n.toNat?
+      let nd ← nd.toNat?
+      let dealers ← (rest.take nd).mapM (parseDealer? r.nq)
+      if dealers.length ≠ nd then none
+      match rest.drop nd with
+      | np :: ps => do
+          let np ← np.toNat?
+          let parties ← ps.mapM parseParty?
+          if parties.length ≠ np then none
+          some (showOutcome (thresholdRun r thr (zeroQP r n) dealers parties))
+      | [] => none
+  | _ => none
+
+def handle (toks : List String) : String := (handleOpt toks).getD badOp
 
 end Driver.C15
